@@ -8,6 +8,6 @@ SlotsFull  == {<<>>, <<"0">>, <<"1">>, <<"1", "2">>, <<"1", ".", "2">>, <<"a", "
 SlotsSmall == {<<>>, <<"0">>, <<"1">>, <<"1", "2">>}
 Req(cs, rm) == [key |-> Key, slot |-> IF cs = <<>> THEN NoSlot ELSE JoinChars(cs), remove |-> rm, cs |-> cs]
 \* what may be in the file beforehand: entries of the same package and unrelated ones
-EntriesFull  == {"a/b", "a/b:1", "a/b:2", "a/b:12", "=x/y-1", "a/c:1"}
+EntriesFull  == {"a/b", "a/b:1", "a/b:2", "a/b:12", "=x/y-1"}
 EntriesSmall == {"a/b", "a/b:1", "a/b:2", "=x/y-1"}
 =========================================================================
